@@ -147,6 +147,17 @@ impl C10 {
                 self.probe(cx, &with(&r), false, class, &mut st);
                 cx.count("fault.empty_payload");
             }
+            // payload kept at its length but overwritten with all-zero / all-one bytes (all-NUL strings, zero counts, -1 values)
+            if len > 4 {
+                for fill in [0x00u8, 0xFF] {
+                    let mut r = bytes[a..b].to_vec();
+                    for x in r[4..].iter_mut() {
+                        *x = fill;
+                    }
+                    self.probe(cx, &with(&r), false, class, &mut st);
+                    cx.count("fault.payload_fill");
+                }
+            }
             // record type replaced by each code (valid or not)
             for t in (0u8..=0x3D).chain([0x7F, 0xFF]) {
                 if t == bytes[a + 2] {
@@ -202,7 +213,7 @@ impl Prop for C10 {
     }
     fn rule(&self) -> String {
         "Seeds: streams from the independent reference encoder (random libraries incl. wide reals, empty/UTF-8 strings) and the repository's .gds files. Per seed: EVERY truncation point (all prefixes for seeds <= 8 KB; every record boundary +-3 bytes for larger), \
-         and for EVERY record: length field := 0,1,2,3,odd,len-2,len+2,0xFFFF,4,6; payload emptied; record type := each of 0x00..0x3D,0x7F,0xFF; data type := 0..7,0xFF; record deleted, duplicated, swapped with the next, replaced by another record of the stream; \
+         and for EVERY record: length field := 0,1,2,3,odd,len-2,len+2,0xFFFF,4,6; payload emptied; payload overwritten with 0x00 / 0xFF; record type := each of 0x00..0x3D,0x7F,0xFF; data type := 0..7,0xFF; record deleted, duplicated, swapped with the next, replaced by another record of the stream; \
          plus random byte flips, pure noise and size-scaling streams (2^6..2^16 elements). Monitors on each execution of GdsLibrary::from_bytes: panic capture; logical step budget via hooks (records read <= len/4+2, parser steps <= that+8); \
          strict prefixes must be Err; every Ok(lib) must write and re-read equal. distinct_nontrivial = distinct input byte strings (hash) that reached the reader."
             .into()
